@@ -24,6 +24,8 @@ Section Sem.
 Variable fields : cls -> list (cls * bool).   (* the classes a class's fields refer to; true = looked up through the caching dispatch
                                                (list/mapping factories), false = get_structure_hook(cache_result=False) *)
 Variable thread_local : bool.        (* `already_generating = threading.local()` -- read off the source by T1 *)
+Variable catches : bool.             (* every attribute hook lookup of the generators sits under `except RecursionError` (or goes through
+                                        find_structure_handler, which does): the cycle signal becomes late binding -- read off the source by T1 *)
 
 Fixpoint remove_cls (c : cls) (l : list cls) : list cls :=
   match l with [] => [] | x :: r => if N.eqb x c then r else x :: remove_cls c r end.
@@ -32,6 +34,10 @@ Definition eff_ws (s : sys) (t : thread) : list cls := if thread_local then ws t
 
 Definition set_thread (s : sys) (i : nat) (t : thread) (cache' shared' : list cls) : sys :=
   {| threads := firstn i (threads s) ++ [t] ++ skipn (S i) (threads s); cache := cache'; shared_ws := shared' |}.
+
+(* the cycle signal is NOT caught at the lookup: it unwinds every generator in progress on this thread (each `finally` removes its class) *)
+Definition unwind_ws (st : list (cls * list (cls * bool) * bool)) (w : list cls) : list cls :=
+  fold_left (fun w fr => remove_cls (fst (fst fr)) w) st w.
 
 Definition enter (s : sys) (i : nat) (t : thread) (c : cls) (cached : bool) (stack' : list (cls * list (cls * bool) * bool)) (todo' : list cls) : sys :=
   set_thread s i {| stack := (c, fields c, cached) :: stack'; ws := if thread_local then c :: ws t else ws t;
@@ -66,10 +72,15 @@ Definition step (s : sys) (i : nat) : sys :=
                      (if thread_local then shared_ws s else remove_cls c (shared_ws s))
       | (c, (d, dc) :: ds, cached) :: below =>
           (* find_structure_handler for a field of class d *)
-          if (dc && mem_N d (cache s)) || mem_N d (eff_ws s t) then   (* only the caching lookup consults the lru cache *)
+          if (dc && mem_N d (cache s)) || (catches && mem_N d (eff_ws s t)) then   (* only the caching lookup consults the lru cache *)
             (* cached hook, or RecursionError caught -> late binding: either way the field is resolved *)
             set_thread s i {| stack := (c, ds, cached) :: below; ws := ws t; todo := todo t; finished := finished t; failed := false |}
                        (cache s) (shared_ws s)
+          else if mem_N d (eff_ws s t) then
+            (* RecursionError with no handler at this lookup: it reaches the caller of structure() *)
+            set_thread s i {| stack := []; ws := if thread_local then unwind_ws (stack t) (ws t) else ws t;
+                              todo := tl (todo t); finished := finished t; failed := true |}
+                       (cache s) (if thread_local then shared_ws s else unwind_ws (stack t) (shared_ws s))
           else enter s i t d dc ((c, ds, cached) :: below) (todo t)
       end
   end.
@@ -87,6 +98,7 @@ End Sem.
 Section Macro.
 Variable fields : cls -> list (cls * bool).
 Variable thread_local : bool.
+Variable catches : bool.
 
 Definition at_yield (s : sys) (i : nat) : bool :=
   match nth_error (threads s) i with
@@ -102,14 +114,14 @@ Definition idle (s : sys) (i : nat) : bool :=
 Fixpoint until_yield (fuel : nat) (s : sys) (i : nat) : sys :=
   match fuel with
   | O => s
-  | S n => if at_yield s i || idle s i then s else until_yield n (step fields thread_local s i) i
+  | S n => if at_yield s i || idle s i then s else until_yield n (step fields thread_local catches s i) i
   end.
 
 (* release thread i from the marker field it is parked at (entering and leaving the marker's
    "generator" takes two steps), then let it run to its next parking point or to completion *)
 Definition mstep (s : sys) (i : nat) : sys :=
-  let s1 := if at_yield s i then step fields thread_local (step fields thread_local s i) i else s in
-  until_yield 200 (if at_yield s i then s1 else step fields thread_local s i) i.
+  let s1 := if at_yield s i then step fields thread_local catches (step fields thread_local catches s i) i else s in
+  until_yield 200 (if at_yield s i then s1 else step fields thread_local catches s i) i.
 
 Definition mrun (s : sys) (sched : list nat) : sys := fold_left mstep sched s.
 
